@@ -22,7 +22,7 @@ ASSUMPTIONS = ["callbacks: x + y, x > c, x // 2 (async for anyio, the same funct
 OUTSIDE = ["inputs longer than the stated bound", "non-integer elements", "uvloop, trio"]
 MUST_REACH = ["both-raised", "nonempty-result", "empty-result", "tee:interleaved", "tee:source-consumed-once"]
 
-FUNCS = ["accumulate", "accumulate_initial", "accumulate_default", "accumulate_default_lists", "accumulate_default_lists_initial", "batched", "batched_strict", "chain", "chain_from_iterable", "combinations", "combinations_with_replacement",
+FUNCS = ["accumulate", "accumulate_initial", "accumulate_default", "accumulate_nullsum", "accumulate_default_none", "tee_pipeline", "accumulate_default_lists", "accumulate_default_lists_initial", "batched", "batched_strict", "chain", "chain_from_iterable", "combinations", "combinations_with_replacement",
          "compress", "count", "cycle", "dropwhile", "filterfalse", "groupby", "groupby_key", "islice1", "islice2", "islice3", "pairwise", "permutations", "product",
          "repeat", "starmap", "takewhile", "zip_longest", "reduce", "reduce_initial"]
 
@@ -121,6 +121,33 @@ def diff(sym, cov, fn, kind, L):
         if fn == "accumulate":
             exp = lambda: list(std.accumulate(list(xs), sadd))  # noqa: E731
             got = lambda: collect(ai.accumulate(S(), aadd))  # noqa: E731
+        elif fn in ("accumulate_nullsum", "accumulate_default_none"):
+            # None among the elements / as a running total (a NULL-propagating sum)
+            zs = [None if x < thr else x for x in xs]
+
+            def snull(p_, q_):
+                return None if p_ is None or q_ is None else p_ + q_
+
+            async def anull(p_, q_):
+                return snull(p_, q_)
+
+            if fn == "accumulate_nullsum":
+                exp = lambda: list(std.accumulate(list(zs), snull))  # noqa: E731
+                got = lambda: collect(ai.accumulate(S(zs), anull))  # noqa: E731
+            else:
+                exp = lambda: list(std.accumulate(list(zs)))  # noqa: E731
+                got = lambda: collect(ai.accumulate(S(zs)))  # noqa: E731
+        elif fn == "tee_pipeline":
+            # a tee() whose source is a pipeline fed by an iterator of ANOTHER tee() (the two groups must not share state)
+            def ref():
+                return list(std.pairwise(list(xs))) + list(xs)
+
+            async def g():
+                a_, b_ = ai.tee(S(), 2)
+                (p_,) = ai.tee(ai.pairwise(a_), 1)
+                return (await collect(p_)) + (await collect(b_))
+
+            exp, got = ref, g
         elif fn == "accumulate_default":
             exp = lambda: list(std.accumulate(list(xs)))  # noqa: E731
             got = lambda: collect(ai.accumulate(S()))  # noqa: E731
